@@ -3,10 +3,29 @@ package value
 import (
 	"context"
 	"encoding/json"
+	stderrors "errors"
 	"fmt"
+	"math"
+	"strconv"
 
 	"github.com/smarthome-go/homescript/v3/homescript/errors"
 )
+
+// A float keeps its fraction in JSON (`2.0`, not `2`), as in the value library of the VM:
+// Go's encoder would write integral floats like integers.
+type jsonFloat float64
+
+func (f jsonFloat) MarshalJSON() ([]byte, error) {
+	n := float64(f)
+	if math.IsInf(n, 0) || math.IsNaN(n) {
+		return nil, stderrors.New("unsupported float64")
+	}
+	prec := -1
+	if math.Trunc(n) == n {
+		prec = 1 // Force ".0" for integers.
+	}
+	return strconv.AppendFloat(nil, n, 'f', prec, 64), nil
+}
 
 func marshalValue(self Value, span errors.Span, isInner bool, executor Executor) (interface{}, bool, *Interrupt) {
 	switch self := self.(type) {
@@ -15,7 +34,7 @@ func marshalValue(self Value, span errors.Span, isInner bool, executor Executor)
 	case ValueInt:
 		return self.Inner, false, nil
 	case ValueFloat:
-		return self.Inner, false, nil
+		return jsonFloat(self.Inner), false, nil
 	case ValueBool:
 		return self.Inner, false, nil
 	case ValueAnyObject:
